@@ -74,9 +74,19 @@ class Dyn:
 
 
 def paren(s):
+    """parenthesise a Lean term unless it is atomic or already one balanced parenthesised group"""
     s = s.strip()
-    if s.startswith("(") or all(c.isalnum() or c in "._'" for c in s):
+    if all(c.isalnum() or c in "._'" for c in s):
         return s
+    if s.startswith("(") and s.endswith(")"):
+        depth = 0
+        for i, c in enumerate(s):
+            depth += c == "("
+            depth -= c == ")"
+            if depth == 0 and i < len(s) - 1:
+                break
+        else:
+            return s
     return f"({s})"
 
 
@@ -159,6 +169,14 @@ class WhileTrue(Frame):
 
     def shape(self):
         return ("WhileTrue", self.scope, id(self.body[0]))
+
+
+class WhileCond(Frame):
+    def __init__(self, test, body, scope):
+        self.test, self.body, self.scope = test, body, scope
+
+    def shape(self):
+        return ("WhileCond", self.scope, id(self.body[0]))
 
 
 class ForRange(Frame):
@@ -317,6 +335,25 @@ class Executor:
     # ---------------------------------------------------------------- expressions
     def ev(self, e, scopes, cur, st):
         """-> Val (pure expressions only; calls with effects are handled by `call`)"""
+        h = getattr(self.dom, "expr_hook", None)
+        if h is not None:
+            r = h(self, e, scopes, cur, st, False)
+            if r is not None:
+                return r
+        if isinstance(e, ast.BoolOp):
+            # `and` / `or` over truth values (operands are total, effect-free primitives: no short-circuit issue)
+            vals = [self.truth_of(v, scopes, cur, st) for v in e.values]
+            is_and = isinstance(e.op, ast.And)
+            dyn = []
+            for v in vals:
+                if isinstance(v, Const):
+                    if bool(v.v) != is_and:
+                        return Const(not is_and)       # a static False in `and` / True in `or` decides
+                else:
+                    dyn.append(paren(v.lean))
+            if not dyn:
+                return Const(is_and)
+            return Dyn((" && " if is_and else " || ").join(dyn), "Bool")
         if isinstance(e, ast.Constant):
             return Const(e.value)
         if isinstance(e, ast.Name):
@@ -326,9 +363,12 @@ class Executor:
             return v
         if isinstance(e, ast.Attribute):
             base = self.ev(e.value, scopes, cur, st)
-            return self.dom.attr(base, e.attr)
+            v = self.dom.attr(base, e.attr)
+            if isinstance(v, Ent) and v.kind == "cell":
+                return self.dom.read_cell(self, v, st)
+            return v
         if isinstance(e, ast.UnaryOp) and isinstance(e.op, ast.Not):
-            v = self.truth(self.ev_call_pure(e.operand, scopes, cur, st))
+            v = self.truth_of(e.operand, scopes, cur, st)
             if isinstance(v, Const):
                 return Const(not v.v)
             return Dyn(f"!{paren(v.lean)}", "Bool")
@@ -351,6 +391,15 @@ class Executor:
         if r[0] != "pure":
             raise Unsupported(f"{self.ident}: call with effects inside an expression: {ast.dump(e)[:80]}")
         return r[1]
+
+    def truth_of(self, e, scopes, cur, st):
+        """truth value of expression `e` (the domain may know what the truthiness of an object means)"""
+        h = getattr(self.dom, "expr_hook", None)
+        if h is not None:
+            r = h(self, e, scopes, cur, st, True)
+            if r is not None:
+                return self.truth(r)
+        return self.truth(self.ev_call_pure(e, scopes, cur, st))
 
     def truth(self, v):
         if isinstance(v, Const):
@@ -407,6 +456,11 @@ class Executor:
     def call(self, e, scopes, cur, st):
         """-> ("pure", Val) | ("eff", lean_state_expr, Val) | ("mayraise", lean_option_expr, binder_ty, exnval)
               | ("local", FunctionDef, args)"""
+        h = getattr(self.dom, "call_hook", None)
+        if h is not None:
+            r = h(self, e, scopes, cur, st)
+            if r is not None:
+                return r
         f = e.func
         args = [self.ev_call_pure(a, scopes, cur, st) for a in e.args]
         kw = {k.arg: self.ev_call_pure(k.value, scopes, cur, st) for k in e.keywords}
@@ -476,9 +530,11 @@ class Executor:
         if isinstance(s, ast.If):
             return self.exec_if(s.test, s.body, s.orelse, stack, scopes, cur, st, ind)
         if isinstance(s, ast.While):
-            if not (isinstance(s.test, ast.Constant) and s.test.value is True) or s.orelse:
-                raise Unsupported(f"{self.ident}: only `while True:` loops are supported")
-            return self.run_stmts(s.body, stack + [WhileTrue(s.body, cur)], scopes, cur, st, ind)
+            if s.orelse:
+                raise Unsupported(f"{self.ident}: while/else")
+            if isinstance(s.test, ast.Constant) and s.test.value is True:
+                return self.run_stmts(s.body, stack + [WhileTrue(s.body, cur)], scopes, cur, st, ind)
+            return self.while_test(WhileCond(s.test, s.body, cur), stack, scopes, cur, st, ind)
         if isinstance(s, ast.For):
             return self.exec_for(s, stack, scopes, cur, st, ind)
         if isinstance(s, ast.Try):
@@ -507,6 +563,18 @@ class Executor:
         if isinstance(s, ast.Expr):
             return self.exec_assign([], s.value, stack, scopes, cur, st, ind)
         raise Unsupported(f"{self.ident}: statement {type(s).__name__} at line {getattr(s, 'lineno', '?')}")
+
+    def while_test(self, fr, stack, scopes, cur, st, ind):
+        """(re-)evaluate the test of a `while <test>:` loop"""
+        self.tick()
+        v = self.truth_of(fr.test, scopes, fr.scope, st)
+        if isinstance(v, Const):
+            if v.v:
+                return self.run_stmts(fr.body, stack + [fr], scopes, fr.scope, st, ind)
+            return self.resume(stack, NORMAL, scopes, fr.scope, st, ind)
+        a = self.run_stmts(fr.body, stack + [fr], scopes, fr.scope, st, ind + "  ")
+        b = self.resume(stack, NORMAL, scopes, fr.scope, st, ind + "  ")
+        return f"{ind}if {v.lean} then\n{a}{ind}else\n{b}"
 
     def ev_raise(self, e, scopes, cur, st):
         if isinstance(e, ast.Call):
@@ -567,6 +635,14 @@ class Executor:
             a = self.resume(stack, ("raise", exnval), scopes, cur, st, ind + "  ")
             b = self.resume(stack, NORMAL, sc, cur, st, ind + "  ")
             return f"{ind}match {opt} with\n{ind}| none =>\n{a}{ind}| some {x} =>\n{b}"
+        if r[0] == "mayraise-ent":
+            # the same, the value being an entity named by the bound variable (a future of a queue)
+            _, opt, exnval = r
+            x = self.new("v")
+            sc, pre, st2 = self.dom.assign_eff(self, scopes, cur, targets, Ent("fut", x), st, ind + "  ")
+            a = self.resume(stack, ("raise", exnval), scopes, cur, st, ind + "  ")
+            b = pre + self.resume(stack, NORMAL, sc, cur, st2, ind + "  ")
+            return f"{ind}match {opt} with\n{ind}| none =>\n{a}{ind}| some {x} =>\n{b}"
         if r[0] == "choice":
             # an environment-decided primitive: list of (pattern, outcome builder)
             _, scrut, alts = r
@@ -621,7 +697,7 @@ class Executor:
                 a = self.run_stmts(body, stack, sc_none, cur, st, ind + "  ")
                 b = self.run_stmts(orelse, stack, sc_some, cur, st, ind + "  ")
                 return f"{ind}match {v.lean} with\n{ind}| none =>\n{a}{ind}| some {x} =>\n{b}"
-        v = self.truth(self.ev_call_pure(test, scopes, cur, st))
+        v = self.truth_of(test, scopes, cur, st)
         if isinstance(v, Const):
             return self.run_stmts(body if v.v else orelse, stack, scopes, cur, st, ind)
         a = self.run_stmts(body, stack, scopes, cur, st, ind + "  ")
@@ -752,6 +828,12 @@ class Executor:
         if isinstance(f, WhileTrue):
             if kind in ("normal", "continue"):
                 return self.run_stmts(f.body, stack, scopes, f.scope, st, ind)
+            if kind == "break":
+                return self.resume(rest, NORMAL, scopes, f.scope, st, ind)
+            return self.resume(rest, o, scopes, f.scope, st, ind)
+        if isinstance(f, WhileCond):
+            if kind in ("normal", "continue"):
+                return self.while_test(f, rest, scopes, f.scope, st, ind)
             if kind == "break":
                 return self.resume(rest, NORMAL, scopes, f.scope, st, ind)
             return self.resume(rest, o, scopes, f.scope, st, ind)
@@ -944,6 +1026,9 @@ def live_names(stack):
                 add(f.stmts)
             elif isinstance(f, (Finally, WhileTrue, ForRange, GenStart)):
                 add(f.body)
+            elif isinstance(f, WhileCond):
+                add(f.body)
+                add([ast.Expr(f.test)])
             elif isinstance(f, Except):
                 for h in f.handlers:
                     add(h.body)
